@@ -207,16 +207,18 @@ func (llb *Buffer) ReadFrom(r io.Reader) (n int64, err error) {
 			panic("Buffer.ReadFrom: reader returned negative count from Read")
 		}
 		n += int64(m)
-		b = b[:m]
-		if err == io.EOF {
+		if m > 0 {
+			// Keep the bytes even if they come along with io.EOF or an error.
+			llb.pushBack(&node{buf: b[:m]})
+		} else {
 			bsPool.Put(b)
+		}
+		if err == io.EOF {
 			return n, nil
 		}
 		if err != nil {
-			bsPool.Put(b)
 			return
 		}
-		llb.pushBack(&node{buf: b})
 	}
 }
 
